@@ -7,6 +7,7 @@ import RasnModel.Driver.C16
 import RasnModel.Driver.C17
 import RasnModel.Driver.Struct
 import RasnModel.Driver.Pipeline
+import RasnModel.Driver.C19
 /- Line-protocol driver: one request per line, one canonical answer per line. -/
 
 def dispatch (line : String) : String :=
@@ -21,6 +22,7 @@ def dispatch (line : String) : String :=
   | some (.atom "c17report" :: args) => Driver.C17.handleReport args
   | some (.atom "struct" :: args) => Driver.Struct.handle args
   | some (.atom "recgraph" :: args) => Driver.Struct.handleRec args
+  | some (.atom "c19" :: args) => Driver.C19.handle args
   | some (.atom "pipe" :: args) => Driver.Pipeline.handle args
   | some (.atom "ping" :: _) => "pong"
   | _ => "bad-op"
